@@ -294,50 +294,54 @@ Fixpoint go_bad_esc (bs : list Z) : bool :=
 
 Definition res_eqb (a b : Z * list Z) : bool := Bool.eqb (fst a =? 0) (fst b =? 0) && ((negb (fst a =? 0)) || bytes_eqb (snd a) (snd b)).
 
+(* the verdict on one document: [nats] = (err, output) of the native flavours that were run, [p] = (err, output) of the portable converter *)
+Definition judge_1801 (ds : jdefs) (root ob : Z) (doc : list Z) (nats : list (Z * list Z)) (p : Z * list Z) : verdict :=
+  let ep := fst p in let op := snd p in
+  if existsb (fun r => fst r =? 3) ((ep, op) :: nats) then VBad 6 [] else     (* a panic is never acceptable *)
+  match nats with
+  | [] => VSkip
+  | (en, on) :: _ =>
+    (* the SIMD flavours are compiled from one source: any difference between them is a violation on every input *)
+    if negb (all_same res_eqb nats) then VBad 1 [] else
+    let o := jopt_of ob in
+    let pj := json_parse doc in
+    let cls := match pj with Some j => classify (S (length doc)) ds o (JStruct root) j | None => K_OTHER end in
+    let nerr := negb (en =? 0) in let perr := negb (ep =? 0) in
+    if nerr && perr then VOk                                                   (* all reject *)
+    else if has K_CONTRA cls then VBad 3 []                                    (* a kind-contradicting document was accepted *)
+    else if negb nerr && negb perr && bytes_eqb on op then
+      (* all accept with identical bytes; the output must at least be a well-formed struct *)
+      match decode_all T_STRUCT on with Some v => expect 5 (wf v) [] | None => VBad 5 [] end
+    else
+      (* native and portable disagree *)
+      if has K_OTHER cls then VDrift 1
+      else if has K_DBLKEY cls then (if negb nerr && perr then VKnown 1805 else VBad 2 [])
+      else if negb nerr && perr then (if go_bad_esc doc then VKnown 1802 else VBad 2 [])
+      else if nerr && negb perr then (if has K_NULLREQ cls && negb (o_wreq o) then VKnown 1801 else VBad 2 [])
+      else
+        match pj, decode_all T_STRUCT on, decode_all T_STRUCT op with
+        | Some j, Some vn, Some vp =>
+          (* both accept, different bytes: apply the quirk models the document is eligible for, one after the other, to the native
+             output; the result must be EXACTLY the portable output; the finding reported is the first quirk that changed something *)
+          let fuel := S (length doc) in
+          let v1 := if has K_NULLK cls then quirk true false fuel ds (JStruct root) j vn else vn in
+          let v2 := if has K_BIGINT cls then quirk false true fuel ds (JStruct root) j v1 else v1 in
+          let nz := has K_NEGZ cls in
+          if bytes_eqb (encode (if nz then norm_negz v2 else v2)) (if nz then encode (norm_negz vp) else op) then
+            (if negb (bytes_eqb (encode v1) (encode vn)) then VKnown 1801
+             else if negb (bytes_eqb (encode v2) (encode v1)) then VKnown 1806
+             else if nz then VKnown 1803 else VBad 2 [])
+          else VBad 2 [FB (encode v2)]
+        | _, _, _ => VBad 2 []
+        end
+  end.
+
 (* 1801. fields: shape, option bits (0 WriteRequireField, 1 WriteDefaultField, 2 WriteOptionalField, 3 DisallowUnknownField,
    4 String2Int64, 5 NoBase64Binary), document, flavour mask, then (output, err) for avx2, avx, sse, portable; err: 0 ok, 1 error, 3 panic *)
 Definition check_1801 (fs : list field) : verdict :=
   match parse_shape fs with
   | Some (ds, root, [FZ ob; FB doc; FZ mask; FB o0; FZ e0; FB o1; FZ e1; FB o2; FZ e2; FB op; FZ ep]) =>
-    let nats := sel mask [(e0, o0); (e1, o1); (e2, o2)] in
-    if existsb (fun r => fst r =? 3) ((ep, op) :: nats) then VBad 6 [] else     (* a panic is never acceptable *)
-    match nats with
-    | [] => VSkip
-    | (en, on) :: _ =>
-      (* the SIMD flavours are compiled from one source: any difference between them is a violation on every input *)
-      if negb (all_same res_eqb nats) then VBad 1 [] else
-      let o := jopt_of ob in
-      let pj := json_parse doc in
-      let cls := match pj with Some j => classify (S (length doc)) ds o (JStruct root) j | None => K_OTHER end in
-      let nerr := negb (en =? 0) in let perr := negb (ep =? 0) in
-      if nerr && perr then VOk                                                   (* all reject *)
-      else if has K_CONTRA cls then VBad 3 []                                    (* a kind-contradicting document was accepted *)
-      else if negb nerr && negb perr && bytes_eqb on op then
-        (* all accept with identical bytes; the output must at least be a well-formed struct *)
-        match decode_all T_STRUCT on with Some v => expect 5 (wf v) [] | None => VBad 5 [] end
-      else
-        (* native and portable disagree *)
-        if has K_OTHER cls then VDrift 1
-        else if has K_DBLKEY cls then (if negb nerr && perr then VKnown 1805 else VBad 2 [])
-        else if negb nerr && perr then (if go_bad_esc doc then VKnown 1802 else VBad 2 [])
-        else if nerr && negb perr then (if has K_NULLREQ cls && negb (o_wreq o) then VKnown 1801 else VBad 2 [])
-        else
-          match pj, decode_all T_STRUCT on, decode_all T_STRUCT op with
-          | Some j, Some vn, Some vp =>
-            (* both accept, different bytes: apply the quirk models the document is eligible for, one after the other, to the native
-               output; the result must be EXACTLY the portable output; the finding reported is the first quirk that changed something *)
-            let fuel := S (length doc) in
-            let v1 := if has K_NULLK cls then quirk true false fuel ds (JStruct root) j vn else vn in
-            let v2 := if has K_BIGINT cls then quirk false true fuel ds (JStruct root) j v1 else v1 in
-            let nz := has K_NEGZ cls in
-            if bytes_eqb (encode (if nz then norm_negz v2 else v2)) (if nz then encode (norm_negz vp) else op) then
-              (if negb (bytes_eqb (encode v1) (encode vn)) then VKnown 1801
-               else if negb (bytes_eqb (encode v2) (encode v1)) then VKnown 1806
-               else if nz then VKnown 1803 else VBad 2 [])
-            else VBad 2 [FB (encode v2)]
-          | _, _, _ => VBad 2 []
-          end
-    end
+    judge_1801 ds root ob doc (sel mask [(e0, o0); (e1, o1); (e2, o2)]) (ep, op)
   | _ => VBad 99 []
   end.
 
@@ -354,29 +358,35 @@ Fixpoint strict18 (v : tval) : bool :=
 
 Definition pair_eqb (a b : Z * Z) : bool := (fst a =? fst b) && (snd a =? snd b).
 
-(* 1802. fields: type, bytes, mask, SkipGo err, SkipGo consumed, then (err, consumed) of SkipNative under avx2, avx, sse *)
+(* the verdict, given the model's skip result [sk] (rest of the input), the model's decoding [dec] of the same bytes (delayed), the input length,
+   SkipGo's (err, consumed) and the (err, consumed) of the SkipNative flavours that were run *)
+Definition judge_1802 (sk : option (list Z)) (dec : unit -> option (tval * list Z)) (len eg ng : Z) (nats : list (Z * Z)) : verdict :=
+  if negb (all_same pair_eqb nats) then VBad 4 [] else
+  match sk with
+  | Some r =>
+    let n := len - zlen r in
+    let same := forallb (fun x => (fst x =? 0) && (snd x =? n)) nats in
+    vand (expect 1 ((eg =? 0) && (ng =? n)) [FZ 0; FZ n])
+    (match dec tt with     (* a thunk: the decoder runs only on bytes the model's skip accepted *)
+     | Some (v, _) => if wf v && strict18 v then expect 2 same [FZ 0; FZ n] else if same then VOk else VDrift 2
+     | None => if same then VOk else VDrift 2
+     end)
+  | None =>
+    vand (expect 3 (eg =? 1) [FZ 1])
+    (if forallb (fun x => fst x =? 1) nats then VOk
+     (* finding 1804: SkipNative returns a nil error (cursor unmoved) when the native skipper fails *)
+     else if forallb (fun x => (fst x =? 1) || ((fst x =? 0) && (snd x =? 0))) nats then VKnown 1804
+     else VBad 5 [FZ 1])
+  end.
+
+(* 1802. fields: type, bytes, mask, SkipGo err, SkipGo consumed, then (err, consumed) of SkipNative under avx2, avx, sse.
+   Well-formed strict values: SkipGo and every flavour must consume exactly the model's count.  Bytes the model's skip accepts that are
+   not a strict well-formed value (unknown element type in an empty container): Go must still equal the model, a native difference is drift.
+   Bytes the model's skip rejects: everybody must fail. *)
 Definition check_1802 (fs : list field) : verdict :=
   match fs with
   | [FZ t; FB bs; FZ mask; FZ eg; FZ ng; FZ e0; FZ n0; FZ e1; FZ n1; FZ e2; FZ n2] =>
-    let nats := sel mask [(e0, n0); (e1, n1); (e2, n2)] in
-    if negb (all_same pair_eqb nats) then VBad 4 [] else
-    match skip_go t bs with
-    | Some r =>
-      let n := zlen bs - zlen r in
-      vand (expect 1 ((eg =? 0) && (ng =? n)) [FZ 0; FZ n])
-      (match decode (S (length bs)) t bs with
-       | Some (v, _) =>
-         if wf v && strict18 v then expect 2 (forallb (fun r => (fst r =? 0) && (snd r =? n)) nats) [FZ 0; FZ n]
-         else if forallb (fun r => (fst r =? 0) && (snd r =? n)) nats then VOk else VDrift 2
-       | None => if forallb (fun r => (fst r =? 0) && (snd r =? n)) nats then VOk else VDrift 2
-       end)
-    | None =>
-      vand (expect 3 (eg =? 1) [FZ 1])
-      (if forallb (fun r => fst r =? 1) nats then VOk
-       (* finding 1804: SkipNative returns a nil error (cursor unmoved) when the native skipper fails *)
-       else if forallb (fun r => (fst r =? 1) || ((fst r =? 0) && (snd r =? 0))) nats then VKnown 1804
-       else VBad 5 [FZ 1])
-    end
+    judge_1802 (skip_go t bs) (fun _ => decode (S (length bs)) t bs) (zlen bs) eg ng (sel mask [(e0, n0); (e1, n1); (e2, n2)])
   | _ => VBad 99 []
   end.
 
